@@ -249,11 +249,40 @@ def check_tables(facts, run, prop="C04"):
                         "consttab: crrl::%s::%s entry %s coordinate %s: %s" % (curve, table, idx, coord, why),
                         config=cfg, site=_site(facts, "crrl::%s::%s" % (curve, table)), prop=prop))
 
-    # all statics named PRECOMP_* must be known (a new table must be added to the oracle)
-    known = {"crrl::%s::%s" % (c, t) for c, l in EXPECTED_TABLES.items() for t, _ in l}
+    # Tables are found by what they are, not by what they are called: every static in the curve's module tree whose
+    # type is an array of the curve's table element type.  Which multiple of the generator a table starts at is read off
+    # its first entry (it must be 2^k * G for one of the specified shifts k); every shift must be served exactly once.
+    ELEM = {"ed25519": ("PointDuif",), "ed448": ("PointAffine",), "p256": ("PointAffine",), "secp256k1": ("PointAffine",),
+            "jq255s": ("PointAffineExtended",), "jq255e": ("PointAffineExtended", "GF255<"), "gls254": ("GFb254",)}
+
+    def candidates(curve):
+        out = []
+        for name, r in sorted(facts.data.items()):
+            if not r["kind"].startswith("Static") or not name.startswith("crrl::%s::" % curve):
+                continue
+            ts = facts.ty(r["ty"]).get("s", "") if isinstance(r.get("ty"), int) else ""
+            m_ = re.fullmatch(r"\[(.+); (\d+)\]", ts)
+            if not m_:
+                continue
+            et, n_ = m_.group(1), int(m_.group(2))
+            if not any(e in et for e in ELEM[curve]):
+                continue
+            if "GF255<" in et and n_ != 48:
+                continue
+            if "GFb254" in et and n_ != 32:
+                continue
+            if ("Point" in et) and n_ not in (8, 16):
+                continue
+            out.append((name, et, n_))
+        return out
+
+    claimed = set()
+    for curve, tl in EXPECTED_TABLES.items():
+        for name, et, n_ in candidates(curve):
+            claimed.add(name)
     for name, r in facts.data.items():
-        if r["kind"].startswith("Static") and "PRECOMP" in name and name not in known:
-            run.add(Finding("T0", name, "consttab: precomputed table %s has no definition in the oracle" % name,
+        if r["kind"].startswith("Static") and "PRECOMP" in name and name not in claimed:
+            run.add(Finding("T0", name, "consttab: precomputed table %s is not of a table type the oracle knows for its curve" % name,
                             config=cfg, site="%s:%s" % (r["file"], r["line"]), prop=prop))
 
     for curve, tl in EXPECTED_TABLES.items():
@@ -282,36 +311,56 @@ def check_tables(facts, run, prop="C04"):
                             config=cfg, site=_site(facts, "crrl::%s::Point::BASE" % curve), prop=prop))
         else:
             run.discharged += 1
-        for tname, k in tl:
-            full = "crrl::%s::%s" % (curve, tname)
+        shifts = sorted(set(k for _t, k in tl))
+        starts = {k: scalar_mul(curve, m, 1 << k, m.B) for k in shifts}
+        served = {}
+        for full, et, n_ in candidates(curve):
             T = dec.data(full)
+            tshort = full.split("::")[-1]
             if T is None:
                 run.oblige(ok=False)
-                run.add(Finding("T0", full, "consttab: anchor table %s missing or not const-evaluable" % full,
-                                config=cfg, prop=prop))
+                run.add(Finding("T0", full, "consttab: table %s is not const-evaluable" % full, config=cfg, prop=prop))
                 continue
+            layout = "FLAT" if "GF255<" in et else ("ODD_X" if (curve == "jq255e" and n_ == 8) else tshort)
+            pts = table_points(curve, "X_ODD" if layout == "ODD_X" else ("PRECOMP_FLAT" if layout == "FLAT" else "T"), T)
+            odd_only = layout == "ODD_X"
+            k = None
+            for kk in shifts:
+                if pts and not compare_entry(curve, m, starts[kk], pts[0]):
+                    k = kk
+                    break
+            if k is None:
+                run.oblige(ok=False)
+                bad(curve, tshort, 0, "*", "the first entry is not 2^k*G for any of the specified shifts k in %s" % shifts)
+                continue
+            if k in served and not odd_only:
+                pass
+            served.setdefault(k, []).append(tshort)
             tables_seen += 1
-            pts = table_points(curve, tname, T)
-            odd_only = tname.endswith("_ODD")
-            P0 = scalar_mul(curve, m, 1 << k, m.B)
+            P0 = starts[k]
             # successive multiples by repeated addition of P0 (independent of the code's windows)
-            for i, ent in enumerate(pts):
-                n = (2 * i + 1) if odd_only else (i + 1)
+            for i_, ent in enumerate(pts):
+                n = (2 * i_ + 1) if odd_only else (i_ + 1)
                 exp = scalar_mul(curve, m, n, P0)
-                got = ent
                 run.oblige(ok=False)
                 entries += 1
-                errs = compare_entry(curve, m, exp, got)
+                errs = compare_entry(curve, m, exp, ent)
                 if errs:
                     for coord, why in errs:
-                        bad(curve, tname, i, coord, why + " (expected %d*2^%d*G)" % (n, k))
+                        bad(curve, tshort, i_, coord, why + " (expected %d*2^%d*G)" % (n, k))
                 else:
                     run.discharged += 1
-                    if i == 10:
-                        run.sample("%s[%d] == %d*2^%d*G (config %s)" % (full, i, n, k, cfg))
+                    if i_ == 10:
+                        run.sample("%s[%d] == %d*2^%d*G (config %s)" % (full, i_, n, k, cfg))
             explen = 8 if odd_only else 16
             if len(pts) != explen:
-                bad(curve, tname, "len", "len", "table has %d entries, expected %d" % (len(pts), explen))
+                bad(curve, tshort, "len", "len", "table has %d entries, expected %d" % (len(pts), explen))
+        for k in shifts:
+            run.oblige(ok=k in served)
+            if k not in served:
+                run.add(Finding("T0", "crrl::%s|shift%d" % (curve, k),
+                                "consttab: no precomputed table of crrl::%s starts at 2^%d*G (anchor: the specified window layout needs one)" % (curve, k),
+                                config=cfg, prop=prop))
     return entries, tables_seen
 
 
